@@ -459,11 +459,25 @@ fn c11_case(leg: &mut Leg, r: &mut Rng, case_seed: u64) {
         if r.chance(1, 4) {
             opts.insert(12, b"otherhost".to_vec());
         }
-        let paramlist: Vec<u8> = match r.below(5) {
+        let mut paramlist: Vec<u8> = match r.below(5) {
             0 => vec![],
             1 => mp::OPTIONS.iter().map(|(_, c, _)| *c).collect(),
             _ => mp::OPTIONS.iter().map(|(_, c, _)| *c).filter(|_| r.chance(2, 3)).collect(),
         };
+        // codes the configuration knows nothing about, incl. site-specific ones (128..254) and codes that differ from a
+        // configured option only in the top bit: asking for them must not make anything else appear
+        if r.chance(1, 2) {
+            for _ in 0..r.range(1, 8) {
+                let c = match r.below(3) {
+                    0 => mp::OPTIONS[r.usize(mp::OPTIONS.len())].1 | 0x80,
+                    1 => r.range(128, 254) as u8,
+                    _ => r.range(1, 254) as u8,
+                };
+                if !mp::OPTIONS.iter().any(|(_, k, _)| *k == c) && ![51u8, 53, 54, 55, 121, 255, 0, 52].contains(&c) {
+                    paramlist.push(c);
+                }
+            }
+        }
         let q = mp::Request {
             chaddr,
             serverip,
